@@ -50,14 +50,19 @@ CHECKS["C01"] = dict(
          "(`base`, omitted directives).",
     design="§6 C01", technique="Lean 4 proof (stable models of the incremental ground program = temporal stable models) + answer-set correspondence of the model with the implementation")
 CHECKS["C02"] = dict(
-    text="Theorems (Lean 4) about the model's accumulated ground program for programs with future heads and look-ahead constraints "
-         "of any depth: temporary copies carry __final(s) of the step that grounded them and are dead at every later horizon "
-         "(stale_dead); the re-grounding windows cover every position exactly (window_temp, window_perm, always_window_cover); the "
-         "assumptions falsify exactly the derivable __future atoms beyond h (assumptions_exact); a __future atom in an answer set "
-         "lies within the horizon and comes with its target (future_head).  The full semantic statement C02_statement is kept "
-         "visible and is PARTIAL: proved for the core fragment (C01_core), validated for the future fragment by the answer-set "
-         "correspondence of the model with the implementation and by the search against the TSM enumerator (depths ≤ 2, horizons incl. h < n).",
-    design="§6 C02", technique="Lean 4 proof of the look-ahead window / assumption invariants (partial for the semantic statement) + answer-set correspondence")
+    text="Theorems (Lean 4), for every program of the rule fragment with future heads of any depth (p', p'', …) and look-ahead "
+         "integrity constraints / `not` / `not not` heads of any depth (progFut) and EVERY horizon h of the incremental history: "
+         "C02_future — the stable models of the model's accumulated ground program G(P,h) (per step the instances of the parts "
+         "selected by the generated partCond, temporary look-ahead copies guarded by __final(s), permanent copies, __future bridge "
+         "rules, the assumptions of the generated assumeCond) are exactly the embeddings of the temporal stable models TSM(P,h), in "
+         "which a future head beyond the last state is a contradiction and a future body literal beyond it is false "
+         "(beyond_end_false); C02_traces is the projection to user atoms; core_sub_fut shows C01 is the special case.  Supporting "
+         "invariants: stale_dead (copies grounded at an earlier step are dead at every later horizon), window_temp / window_perm / "
+         "always_window_cover (every position is covered exactly), assumptions_exact, future_head.  The statement without the "
+         "syntactic side condition (C02_statement) is kept visible: programs outside progFut are rejected by telingo (C11).  Tie: "
+         "part list / future signatures vs transform's return value, and G(P,h) solved by clingo vs the real incremental run at "
+         "every horizon; search: real runs vs the brute-force TSM enumerator (depths ≤ 2, horizons incl. h < n, both classical signs).",
+    design="§6 C02", technique="Lean 4 proof (stable models of the incremental ground program with look-ahead parts, bridge rules and assumptions = temporal stable models) + answer-set correspondence")
 CHECKS["C09"] = dict(
     text="Theorems (Lean 4) about every stable model X of the model's accumulated ground program G(P,h), for every program of the "
          "typed rule fragment and every horizon: user atoms carry times in 0..h (times_in_range), __initial(k) ∈ X ↔ k = 0, "
@@ -91,9 +96,12 @@ CHECKS["C17"] = dict(
     text="Theorems (Lean 4): tsm_prefix — for past-only programs of the core fragment (no final part, no &final, no future "
          "reference) the first h+1 states of a temporal stable model of horizon h+1 form one of horizon h; C17_prefix / "
          "C17_prefix_iter — the same for the stable models of the model's accumulated ground programs G(P,h+d) and G(P,h) (through "
-         "C01_core), i.e. for the incremental history.  PARTIAL for programs with past `&tel` body formulas: those are covered by the "
-         "search only (consecutive horizons of one real run: past-only rule programs, the past operator-pair grid incl. n-fold "
-         "variants as observers and constraints).",
+         "C01_core), i.e. for the incremental history; tsm_prefix_tel / past_formula_horizon_free — the prefix theorem on the "
+         "specification also for rule bodies with past `&tel` formulas (any nesting of < <: <? <* << <; <:; and Boolean connectives): a "
+         "past-only formula has the same value at every horizon.  PARTIAL: for programs with `&tel` atoms the link from the "
+         "specification to the implementation is the C03 equation-level tie, not the ground-program model; search: consecutive "
+         "horizons of one real run (past-only rule programs, the past operator-pair grid incl. n-fold variants as observers and "
+         "constraints).",
     design="§6 C17", technique="Lean 4 proof (prefix theorem on TSM, lifted to the incremental ground program) + prefix monitor on consecutive horizons of real runs")
 CHECKS["C12"] = dict(
     text="Theorems (Lean 4): G_congr — the ground program accumulated at horizon h depends on the temporal program only through "
